@@ -47,7 +47,7 @@ names = sorted(n for n in os.listdir(SRC) if os.path.exists(os.path.join(SRC, n,
 if ONLY:
     names = [n for n in names if any(n.startswith(o) for o in ONLY)]
 os.makedirs("/tmp/rf_out", exist_ok=True)
-with ThreadPoolExecutor(2) as ex:
+with ThreadPoolExecutor(3) as ex:
     res = list(ex.map(one, names))
 json.dump(res, open("/tmp/rf_out/results.json", "w"), indent=1)
 for r in res:
